@@ -1,1 +1,637 @@
-From G01 Require Import ReqE2E.
+(* C01 — lemmas about the request pipeline model.  Facts about the source
+   (Tables.v) enter only as hypotheses; Ob01.v discharges them. *)
+From Coq Require Import Lia.
+From G01 Require Import ReqE2E ViaProofs.
+
+(* ---------- canonical keys ---------- *)
+Lemma upperc_idem c : upperc (upperc c) = upperc c.
+Proof.
+  unfold upperc, is_lower.
+  destruct ((97 <=? c) && (c <=? 122)) eqn:E; [|rewrite E; reflexivity].
+  apply andb_true_iff in E as [E1 E2]. apply N.leb_le in E1, E2.
+  destruct ((97 <=? c - 32) && (c - 32 <=? 122)) eqn:E'; [|reflexivity].
+  apply andb_true_iff in E' as [E3 _]. apply N.leb_le in E3. lia.
+Qed.
+
+Lemma upperc_dash c : (upperc c =? 45) = (c =? 45).
+Proof.
+  unfold upperc, is_lower. destruct ((97 <=? c) && (c <=? 122)) eqn:E; [|reflexivity].
+  apply andb_true_iff in E as [E1 E2]. apply N.leb_le in E1, E2.
+  destruct (c - 32 =? 45) eqn:A; destruct (c =? 45) eqn:B; try reflexivity.
+  - apply N.eqb_eq in A. lia.
+  - apply N.eqb_eq in B. lia.
+Qed.
+
+Lemma lowerc_dash c : (lowerc c =? 45) = (c =? 45).
+Proof.
+  unfold lowerc, is_upper. destruct ((65 <=? c) && (c <=? 90)) eqn:E; [|reflexivity].
+  apply andb_true_iff in E as [E1 E2]. apply N.leb_le in E1, E2.
+  destruct (c + 32 =? 45) eqn:A; destruct (c =? 45) eqn:B; try reflexivity.
+  - apply N.eqb_eq in A. lia.
+  - apply N.eqb_eq in B. lia.
+Qed.
+
+Lemma canon_go_idem up s : canon_go up (canon_go up s) = canon_go up s.
+Proof.
+  revert up. induction s as [|c s IH]; intro up; [reflexivity|].
+  cbn [canon_go]. destruct up.
+  - rewrite upperc_idem, upperc_dash, IH. reflexivity.
+  - rewrite lowerc_idem, lowerc_dash, IH. reflexivity.
+Qed.
+
+(* case changes keep token characters token characters *)
+Lemma is_token_char_upperc c : is_token_char (upperc c) = is_token_char c.
+Proof.
+  unfold upperc. destruct (is_lower c) eqn:E; [|reflexivity].
+  unfold is_lower in E. apply andb_true_iff in E as [E1 E2]. apply N.leb_le in E1, E2.
+  unfold is_token_char, is_alpha, is_upper, is_lower, is_digit.
+  assert (A : (65 <=? c - 32) && (c - 32 <=? 90) = true) by (apply andb_true_iff; split; apply N.leb_le; lia).
+  assert (B : (97 <=? c) && (c <=? 122) = true) by (apply andb_true_iff; split; apply N.leb_le; lia).
+  rewrite A, B. rewrite orb_true_r. reflexivity.
+Qed.
+
+Lemma is_token_char_lowerc c : is_token_char (lowerc c) = is_token_char c.
+Proof.
+  unfold lowerc. destruct (is_upper c) eqn:E; [|reflexivity].
+  unfold is_upper in E. apply andb_true_iff in E as [E1 E2]. apply N.leb_le in E1, E2.
+  unfold is_token_char, is_alpha, is_upper, is_lower, is_digit.
+  assert (A : (97 <=? c + 32) && (c + 32 <=? 122) = true) by (apply andb_true_iff; split; apply N.leb_le; lia).
+  assert (B : (65 <=? c) && (c <=? 90) = true) by (apply andb_true_iff; split; apply N.leb_le; lia).
+  rewrite A, B. rewrite orb_true_r. reflexivity.
+Qed.
+
+Lemma token_canon_go up s : forallb is_token_char (canon_go up s) = forallb is_token_char s.
+Proof.
+  revert up. induction s as [|c s IH]; intro up; [reflexivity|].
+  cbn [canon_go forallb]. rewrite IH. destruct up; [rewrite is_token_char_upperc | rewrite is_token_char_lowerc]; reflexivity.
+Qed.
+
+Lemma canon_idem s : canon (canon s) = canon s.
+Proof.
+  unfold canon. destruct (forallb is_token_char s) eqn:E.
+  - rewrite token_canon_go, E. apply canon_go_idem.
+  - rewrite E. reflexivity.
+Qed.
+
+(* ---------- deleting a list of names ---------- *)
+Lemma mem_spec k l : mem k l = true <-> In k l.
+Proof.
+  unfold mem. rewrite existsb_exists. split.
+  - intros [x [Hin E]]. apply str_eqb_eq in E. subst. exact Hin.
+  - intro H. exists k. split; [exact H | apply str_eqb_refl].
+Qed.
+
+Lemma raw_get_del_names names : forall h k,
+  raw_get k (fold_left (fun h n => h_del n h) names h) =
+  if mem k (map canon names) then None else raw_get k h.
+Proof.
+  induction names as [|n r IH]; intros h k; [reflexivity|].
+  cbn [fold_left map mem existsb]. rewrite IH. fold (mem k (map canon r)).
+  destruct (mem k (map canon r)) eqn:E; [rewrite orb_true_r; reflexivity|]. rewrite orb_false_r.
+  unfold h_del. destruct (str_eqb k (canon n)) eqn:E2.
+  - apply str_eqb_eq in E2. subst. apply raw_get_del_same.
+  - apply raw_get_del_other. apply str_eqb_neq. exact E2.
+Qed.
+
+Lemma raw_get_filter_key (p : str -> bool) h k :
+  raw_get k (filter (fun kv => p (fst kv)) h) = if p k then raw_get k h else None.
+Proof.
+  induction h as [|[k' vs] r IH]; [destruct (p k); reflexivity|].
+  cbn [filter fst]. destruct (p k') eqn:E.
+  - cbn [raw_get]. destruct (str_eqb k k') eqn:E2.
+    + apply str_eqb_eq in E2. subst. rewrite E. reflexivity.
+    + exact IH.
+  - rewrite IH. cbn [raw_get]. destruct (str_eqb k k') eqn:E2; [|reflexivity].
+    apply str_eqb_eq in E2. subst. rewrite E. reflexivity.
+Qed.
+
+Lemma map_id_on {A} (f : A -> A) l : (forall x, In x l -> f x = x) -> map f l = l.
+Proof.
+  induction l as [|a l IH]; intro H; [reflexivity|]. cbn [map]. rewrite H by (left; reflexivity).
+  rewrite IH; [reflexivity|]. intros x Hx. apply H. right. exact Hx.
+Qed.
+
+(* all nominated names are canonical *)
+Lemma nominated_canon h n : In n (nominated h) -> canon n = n.
+Proof.
+  unfold nominated. rewrite in_flat_map. intros [vs [_ Hin]].
+  apply in_map_iff in Hin as [v [<- _]]. apply canon_idem.
+Qed.
+
+Section Pipeline.
+  (* obligations on the source *)
+  Hypothesis Hhop : hop_by_hop_headers = spec_hop_list.
+
+  Lemma removed_names_canon h : map canon (nominated h ++ hop_by_hop_headers) = removed_names h.
+  Proof.
+    unfold removed_names. rewrite Hhop, map_app. f_equal.
+    apply map_id_on. intros n Hin. apply (nominated_canon h). exact Hin.
+  Qed.
+
+  (* header.removeHopByHopHeaders computes the documented removal *)
+  Lemma hbh_pointwise h k : raw_get k (remove_hop_by_hop h) = if is_removed k h then None else raw_get k h.
+  Proof. unfold remove_hop_by_hop. rewrite raw_get_del_names, removed_names_canon. reflexivity. Qed.
+
+  Lemma hbh_is_after_removal h : hequiv (remove_hop_by_hop h) (after_removal h).
+  Proof.
+    intro k. rewrite hbh_pointwise. unfold after_removal.
+    rewrite (raw_get_filter_key (fun k => negb (is_removed k h))). destruct (is_removed k h); reflexivity.
+  Qed.
+End Pipeline.
+
+
+(* ---------- the single modifiers, pointwise ---------- *)
+Lemma canon_consts :
+  canon k_xfp = k_xfp /\ canon k_xfh = k_xfh /\ canon k_xfu = k_xfu /\ canon k_xff = k_xff /\
+  canon k_cl = k_cl /\ canon k_ua = k_ua /\ canon k_connection = k_connection /\ canon k_upgrade = k_upgrade.
+Proof. repeat split; reflexivity. Qed.
+
+Lemma raw_get_h_set_same k v h : canon k = k -> raw_get k (h_set k v h) = Some [v].
+Proof. intro E. unfold h_set. rewrite E. apply raw_get_set_same. Qed.
+
+Lemma raw_get_h_set_other k k' v h : canon k' = k' -> k <> k' -> raw_get k (h_set k' v h) = raw_get k h.
+Proof. intros E Hne. unfold h_set. rewrite E. apply raw_get_set_other. exact Hne. Qed.
+
+Lemma h_get_raw k h : canon k = k -> h_get k h = match raw_get k h with Some (v :: _) => v | _ => [] end.
+Proof. intro E. unfold h_get, h_values. rewrite E. destruct (raw_get k h) as [[|v vs]|]; reflexivity. Qed.
+
+Lemma h_values_raw k h : canon k = k -> h_values k h = raw_values k h.
+Proof. intro E. unfold h_values, raw_values. rewrite E. reflexivity. Qed.
+
+Definition fwd_keys : list str := [k_xfp; k_xfh; k_xfu; k_xff].
+
+(* NewForwardedModifier touches only the four X-Forwarded-* names *)
+Lemma forwarded_others fa all r k : mem k fwd_keys = false ->
+  raw_get k (q_hdr (forwarded_gen2 fa all r)) = raw_get k (q_hdr r).
+Proof.
+  intro Hk. unfold forwarded_gen2. destruct (str_eqb (q_method r) m_connect); [reflexivity|].
+  cbn [q_hdr set_hdr].
+  assert (N : k <> k_xfp /\ k <> k_xfh /\ k <> k_xfu /\ k <> k_xff).
+  { unfold mem, fwd_keys in Hk. cbn [existsb] in Hk. repeat (apply orb_false_iff in Hk as [? Hk]).
+    repeat split; apply str_eqb_neq; assumption. }
+  destruct N as [N1 [N2 [N3 N4]]]. destruct canon_consts as [C1 [C2 [C3 [C4 _]]]].
+  rewrite raw_get_h_set_other by assumption.
+  destruct (fill_absent fa k_xfu _); [rewrite raw_get_h_set_other by assumption|];
+    (destruct (fill_absent fa k_xfh _); [rewrite raw_get_h_set_other by assumption|]);
+    (destruct (fill_absent fa k_xfp _); [rewrite raw_get_h_set_other by assumption|]); reflexivity.
+Qed.
+
+Lemma forwarded_fields fa all r : q_method (forwarded_gen2 fa all r) = q_method r /\ q_host (forwarded_gen2 fa all r) = q_host r /\
+  q_scheme (forwarded_gen2 fa all r) = q_scheme r /\ q_urlstr (forwarded_gen2 fa all r) = q_urlstr r /\
+  q_close (forwarded_gen2 fa all r) = q_close r /\ q_maj (forwarded_gen2 fa all r) = q_maj r /\ q_min (forwarded_gen2 fa all r) = q_min r /\
+  q_remote (forwarded_gen2 fa all r) = q_remote r.
+Proof. unfold forwarded_gen2. destruct (str_eqb (q_method r) m_connect); repeat split; reflexivity. Qed.
+
+(* "filled in when absent, otherwise left alone"; absent as the source tests it (fill_absent) *)
+Definition fill_spec (fa : bool) (k computed : str) (h : hmap) : option (list str) :=
+  if fill_absent fa k h then Some [computed] else raw_get k h.
+
+Lemma fill_absent_ext fa k h h' : canon k = k -> raw_get k h' = raw_get k h -> fill_absent fa k h' = fill_absent fa k h.
+Proof.
+  intros C E. unfold fill_absent. rewrite !h_get_raw by exact C. rewrite !h_values_raw by exact C.
+  unfold raw_values. rewrite E. reflexivity.
+Qed.
+
+Lemma forwarded_fill fa all r : str_eqb (q_method r) m_connect = false ->
+  raw_get k_xfp (q_hdr (forwarded_gen2 fa all r)) = fill_spec fa k_xfp (q_scheme r) (q_hdr r) /\
+  raw_get k_xfh (q_hdr (forwarded_gen2 fa all r)) = fill_spec fa k_xfh (q_host r) (q_hdr r) /\
+  raw_get k_xfu (q_hdr (forwarded_gen2 fa all r)) = fill_spec fa k_xfu (q_urlstr r) (q_hdr r).
+Proof.
+  intro Hm. unfold forwarded_gen2. rewrite Hm. cbn [q_hdr set_hdr]. unfold fill_spec.
+  destruct canon_consts as [C1 [C2 [C3 [C4 _]]]].
+  assert (D12 : k_xfp <> k_xfh) by discriminate. assert (D13 : k_xfp <> k_xfu) by discriminate.
+  assert (D14 : k_xfp <> k_xff) by discriminate. assert (D23 : k_xfh <> k_xfu) by discriminate.
+  assert (D24 : k_xfh <> k_xff) by discriminate. assert (D34 : k_xfu <> k_xff) by discriminate.
+  set (h := q_hdr r).
+  set (h1 := if fill_absent fa k_xfp h then h_set k_xfp (q_scheme r) h else h).
+  set (h2 := if fill_absent fa k_xfh h1 then h_set k_xfh (q_host r) h1 else h1).
+  set (h3 := if fill_absent fa k_xfu h2 then h_set k_xfu (q_urlstr r) h2 else h2).
+  assert (G1 : raw_get k_xfp h1 = if fill_absent fa k_xfp h then Some [q_scheme r] else raw_get k_xfp h).
+  { unfold h1. destruct (fill_absent fa k_xfp h); [apply raw_get_h_set_same; exact C1 | reflexivity]. }
+  assert (G2a : raw_get k_xfh h1 = raw_get k_xfh h).
+  { unfold h1. destruct (fill_absent fa k_xfp h); [apply raw_get_h_set_other; [exact C1 | congruence] | reflexivity]. }
+  assert (G3a : raw_get k_xfu h1 = raw_get k_xfu h).
+  { unfold h1. destruct (fill_absent fa k_xfp h); [apply raw_get_h_set_other; [exact C1 | congruence] | reflexivity]. }
+  assert (E2 : fill_absent fa k_xfh h1 = fill_absent fa k_xfh h) by (apply fill_absent_ext; assumption).
+  assert (G2 : raw_get k_xfh h2 = if fill_absent fa k_xfh h then Some [q_host r] else raw_get k_xfh h).
+  { unfold h2. rewrite E2. destruct (fill_absent fa k_xfh h); [apply raw_get_h_set_same; exact C2 | exact G2a]. }
+  assert (G1b : raw_get k_xfp h2 = raw_get k_xfp h1).
+  { unfold h2. destruct (fill_absent fa k_xfh h1); [apply raw_get_h_set_other; [exact C2 | congruence] | reflexivity]. }
+  assert (G3b : raw_get k_xfu h2 = raw_get k_xfu h).
+  { unfold h2. destruct (fill_absent fa k_xfh h1); [rewrite raw_get_h_set_other; [exact G3a | exact C2 | congruence] | exact G3a]. }
+  assert (E3 : fill_absent fa k_xfu h2 = fill_absent fa k_xfu h) by (apply fill_absent_ext; assumption).
+  assert (G3 : raw_get k_xfu h3 = if fill_absent fa k_xfu h then Some [q_urlstr r] else raw_get k_xfu h).
+  { unfold h3. rewrite E3. destruct (fill_absent fa k_xfu h); [apply raw_get_h_set_same; exact C3 | exact G3b]. }
+  assert (K3 : forall k, k <> k_xfu -> raw_get k h3 = raw_get k h2).
+  { intros k Hk. unfold h3. destruct (fill_absent fa k_xfu h2); [apply raw_get_h_set_other; [exact C3 | exact Hk] | reflexivity]. }
+  repeat split.
+  - rewrite raw_get_h_set_other by (try exact C4; congruence). rewrite K3 by congruence. rewrite G1b. exact G1.
+  - rewrite raw_get_h_set_other by (try exact C4; congruence). rewrite K3 by congruence. exact G2.
+  - rewrite raw_get_h_set_other by (try exact C4; congruence). exact G3.
+Qed.
+
+(* X-Forwarded-For: one field, all received values joined, then the client address *)
+Lemma forwarded_xff fa r : str_eqb (q_method r) m_connect = false ->
+  let ip := match split_host_port_host (q_remote r) with Some x => x | None => q_remote r end in
+  let v := join comma_sp (raw_values k_xff (q_hdr r)) in
+  raw_get k_xff (q_hdr (forwarded_gen2 fa true r)) = Some [if is_empty v then ip else v ++ comma_sp ++ ip].
+Proof.
+  intro Hm. cbn zeta. unfold forwarded_gen2. rewrite Hm. cbn [q_hdr set_hdr].
+  destruct canon_consts as [C1 [C2 [C3 [C4 _]]]].
+  rewrite raw_get_h_set_same by exact C4. do 2 f_equal.
+  unfold xff_read. rewrite h_values_raw by exact C4.
+  assert (E : forall h' : hmap, (forall k, k = k_xff -> raw_get k h' = raw_get k (q_hdr r)) ->
+              raw_values k_xff h' = raw_values k_xff (q_hdr r)).
+  { intros h' H. unfold raw_values. rewrite (H k_xff eq_refl). reflexivity. }
+  rewrite E; [reflexivity|]. intros k ->.
+  repeat match goal with
+  | |- context [if ?c then h_set ?kk ?vv ?hh else ?hh] =>
+      let Hc := fresh in destruct c eqn:Hc; [rewrite raw_get_h_set_other by (try assumption; discriminate)|]
+  end; reflexivity.
+Qed.
+
+(* NewBadFramingModifier touches only Content-Length *)
+Lemma framing_others h h' k : bad_framing h = Some h' -> k <> k_cl -> raw_get k h' = raw_get k h.
+Proof.
+  unfold bad_framing. intros H Hk. destruct canon_consts as [_ [_ [_ [_ [C5 _]]]]].
+  set (r1 := match raw_values k_cl h with [] => Some h | _ => _ end) in H.
+  assert (R1 : forall h1, r1 = Some h1 -> raw_get k h1 = raw_get k h).
+  { unfold r1. intros h1 E. destruct (raw_values k_cl h); [injection E as <-; reflexivity|].
+    destruct (cl_scan [] _); [|discriminate]. injection E as <-. apply raw_get_h_set_other; assumption. }
+  destruct r1 as [h1|]; [|discriminate]. specialize (R1 h1 eq_refl).
+  destruct (raw_values k_te h1).
+  - injection H as <-. exact R1.
+  - destruct (str_eqb _ _); [|discriminate]. injection H as <-. unfold h_del. rewrite C5.
+    rewrite raw_get_del_other by exact Hk. exact R1.
+Qed.
+
+(* ViaModifier touches only Via *)
+Lemma via_others all tag maj min h h' k : via_modify_gen all tag maj min h = ViaOk h' -> k <> via_key ->
+  raw_get k h' = raw_get k h.
+Proof.
+  unfold via_modify_gen. intros H Hk. destruct (negb _ && _); [discriminate|]. injection H as <-.
+  apply raw_get_h_set_other; [reflexivity | exact Hk].
+Qed.
+
+Lemma ua_spec h k : raw_get k (set_empty_user_agent h) =
+  if str_eqb k k_ua then match raw_get k_ua h with Some vs => Some vs | None => Some [[]] end else raw_get k h.
+Proof.
+  unfold set_empty_user_agent. destruct (str_eqb k k_ua) eqn:E.
+  - apply str_eqb_eq in E. subst. destruct (raw_get k_ua h) eqn:E2; [exact E2|].
+    apply raw_get_h_set_same. reflexivity.
+  - destruct (raw_get k_ua h); [reflexivity|]. apply raw_get_h_set_other; [reflexivity | apply str_eqb_neq; exact E].
+Qed.
+
+(* ---------- the composed stack ---------- *)
+Definition fixed_flat_stack : list str :=
+  [b "NewHopByHopModifier"; b "NewForwardedModifier"; b "NewBadFramingModifier"; b "NewViaModifier";
+   b "user"; b "setBasicAuth"; b "setEmptyUserAgent"].
+
+(* middlewareStack with the source's order, written out *)
+Definition pipeline (tag : str) (r : mreq) : outcome :=
+  let r1 := set_hdr r (remove_hop_by_hop (q_hdr r)) in
+  let r2 := forwarded_gen2 true true r1 in
+  match bad_framing (q_hdr r2) with
+  | None => Refused 500
+  | Some h3 =>
+      match via_modify_gen true tag (q_maj r2) (q_min r2) h3 with
+      | ViaRefused st _ => Refused (status_of_error_status st)
+      | ViaOk h4 => Passed (set_hdr r2 (set_empty_user_agent h4))
+      end
+  end.
+
+Lemma am_hbh tag r : apply_mod tag (b "NewHopByHopModifier") r = Passed (set_hdr r (remove_hop_by_hop (q_hdr r))).
+Proof. reflexivity. Qed.
+Lemma am_fwd tag r : apply_mod tag (b "NewForwardedModifier") r = Passed (forwarded_gen2 xfwd_fill_reads_all_lines xff_reads_all_lines r).
+Proof. reflexivity. Qed.
+Lemma am_frm tag r : apply_mod tag (b "NewBadFramingModifier") r =
+  match bad_framing (q_hdr r) with Some h => Passed (set_hdr r h) | None => Refused 500 end.
+Proof. reflexivity. Qed.
+Lemma am_via tag r : apply_mod tag (b "NewViaModifier") r =
+  match via_modify tag (q_maj r) (q_min r) (q_hdr r) with
+  | ViaRefused st _ => Refused (status_of_error_status st)
+  | ViaOk h => Passed (set_hdr r h)
+  end.
+Proof. reflexivity. Qed.
+Lemma am_user tag r : apply_mod tag (b "user") r = Passed r.
+Proof. reflexivity. Qed.
+Lemma am_auth tag r : apply_mod tag (b "setBasicAuth") r = Passed r.
+Proof. reflexivity. Qed.
+Lemma am_ua tag r : apply_mod tag (b "setEmptyUserAgent") r = Passed (set_hdr r (set_empty_user_agent (q_hdr r))).
+Proof. reflexivity. Qed.
+
+Section Fixed.
+  Hypothesis Hhop : hop_by_hop_headers = spec_hop_list.
+  Hypothesis Hflat : flat_stack = fixed_flat_stack.
+  Hypothesis Hxff : xff_reads_all_lines = true.
+  Hypothesis Hfill : xfwd_fill_reads_all_lines = true.
+  Hypothesis Hvia : via_reads_all_lines = true.
+
+  Lemma modify_request_is_pipeline tag r : modify_request tag r = pipeline tag r.
+  Proof.
+    unfold modify_request. rewrite Hflat. unfold fixed_flat_stack. cbn [run_mods].
+    rewrite am_hbh, am_fwd, Hxff, Hfill. rewrite am_frm. unfold pipeline. cbn zeta.
+    destruct (bad_framing _) as [h3|]; [|reflexivity].
+    rewrite am_via. unfold via_modify. rewrite Hvia. cbn [q_maj q_min q_hdr set_hdr].
+    destruct (via_modify_gen true tag _ _ h3) as [st cl|h4]; [reflexivity|].
+    rewrite am_user, am_auth, am_ua. reflexivity.
+  Qed.
+
+  (* what the pipeline leaves under each name, in terms of the header after the documented removal *)
+  Lemma pipeline_passed tag r r' : pipeline tag r = Passed r' ->
+    exists h3 h4,
+      bad_framing (q_hdr (forwarded_gen2 true true (set_hdr r (remove_hop_by_hop (q_hdr r))))) = Some h3 /\
+      via_modify_gen true tag (q_maj r) (q_min r) h3 = ViaOk h4 /\
+      r' = set_hdr (forwarded_gen2 true true (set_hdr r (remove_hop_by_hop (q_hdr r)))) (set_empty_user_agent h4).
+  Proof.
+    unfold pipeline. cbn zeta. set (r2 := forwarded_gen2 true true _).
+    assert (Em : q_maj r2 = q_maj r /\ q_min r2 = q_min r).
+    { destruct (forwarded_fields true true (set_hdr r (remove_hop_by_hop (q_hdr r)))) as [_ [_ [_ [_ [_ [A [B _]]]]]]]. split; assumption. }
+    destruct Em as [-> ->].
+    destruct (bad_framing (q_hdr r2)) as [h3|]; [|discriminate].
+    destruct (via_modify_gen true tag (q_maj r) (q_min r) h3) as [st cl|h4] eqn:E; [discriminate|].
+    intro H. injection H as <-. exists h3, h4. repeat split. exact E.
+  Qed.
+
+  (* T01_end_to_end_preserved *)
+  Lemma end_to_end_preserved tag r r' k :
+    modify_request tag r = Passed r' ->
+    is_removed k (q_hdr r) = false -> mem k doc_keys = false ->
+    raw_get k (q_hdr r') = raw_get k (q_hdr r).
+  Proof.
+    rewrite modify_request_is_pipeline. intros H Hrem Hdoc.
+    destruct (pipeline_passed tag r r' H) as [h3 [h4 [Hf [Hv ->]]]]. cbn [q_hdr set_hdr].
+    unfold mem, doc_keys in Hdoc. cbn [existsb] in Hdoc.
+    repeat (apply orb_false_iff in Hdoc as [? Hdoc]).
+    repeat match goal with X : str_eqb _ _ = false |- _ => apply str_eqb_neq in X end.
+    rewrite ua_spec. destruct (str_eqb k k_ua) eqn:E; [apply str_eqb_eq in E; contradiction|].
+    rewrite (via_others true tag _ _ h3 h4 k Hv) by assumption.
+    rewrite (framing_others _ h3 k Hf) by assumption.
+    rewrite forwarded_others.
+    - cbn [q_hdr set_hdr]. rewrite (hbh_pointwise Hhop), Hrem. reflexivity.
+    - unfold mem, fwd_keys. cbn [existsb].
+      repeat match goal with X : k <> _ |- _ => apply str_eqb_neq in X; rewrite ?X; clear X end. reflexivity.
+  Qed.
+
+  (* T01_hop_by_hop_removed *)
+  Lemma hop_by_hop_removed tag r r' k :
+    modify_request tag r = Passed r' ->
+    is_removed k (q_hdr r) = true -> mem k doc_keys = false ->
+    raw_get k (q_hdr r') = None.
+  Proof.
+    rewrite modify_request_is_pipeline. intros H Hrem Hdoc.
+    destruct (pipeline_passed tag r r' H) as [h3 [h4 [Hf [Hv ->]]]]. cbn [q_hdr set_hdr].
+    unfold mem, doc_keys in Hdoc. cbn [existsb] in Hdoc.
+    repeat (apply orb_false_iff in Hdoc as [? Hdoc]).
+    repeat match goal with X : str_eqb _ _ = false |- _ => apply str_eqb_neq in X end.
+    rewrite ua_spec. destruct (str_eqb k k_ua) eqn:E; [apply str_eqb_eq in E; contradiction|].
+    rewrite (via_others true tag _ _ h3 h4 k Hv) by assumption.
+    rewrite (framing_others _ h3 k Hf) by assumption.
+    rewrite forwarded_others.
+    - cbn [q_hdr set_hdr]. rewrite (hbh_pointwise Hhop), Hrem. reflexivity.
+    - unfold mem, fwd_keys. cbn [existsb].
+      repeat match goal with X : k <> _ |- _ => apply str_eqb_neq in X; rewrite ?X; clear X end. reflexivity.
+  Qed.
+
+  (* method, host, URL, scheme, version and the close flag are not touched *)
+  Lemma identity_fields tag r r' : modify_request tag r = Passed r' ->
+    q_method r' = q_method r /\ q_host r' = q_host r /\ q_urlstr r' = q_urlstr r /\ q_scheme r' = q_scheme r /\
+    q_maj r' = q_maj r /\ q_min r' = q_min r /\ q_close r' = q_close r.
+  Proof.
+    rewrite modify_request_is_pipeline. intro H.
+    destruct (pipeline_passed tag r r' H) as [h3 [h4 [_ [_ ->]]]].
+    destruct (forwarded_fields true true (set_hdr r (remove_hop_by_hop (q_hdr r)))) as [A [B [C [D [E [F [G _]]]]]]].
+    cbn [q_method q_host q_urlstr q_scheme q_maj q_min q_close set_hdr] in *. repeat split; assumption.
+  Qed.
+
+  (* T01_no_user_agent_invented: the key is always present after the stack (so net/http's default is never used),
+     with the client's values, or the empty value when the client sent none *)
+  Lemma user_agent tag r r' : modify_request tag r = Passed r' ->
+    raw_get k_ua (q_hdr r') =
+      match raw_get k_ua (after_removal (q_hdr r)) with Some vs => Some vs | None => Some [[]] end.
+  Proof.
+    rewrite modify_request_is_pipeline. intro H.
+    destruct (pipeline_passed tag r r' H) as [h3 [h4 [Hf [Hv ->]]]]. cbn [q_hdr set_hdr].
+    rewrite ua_spec, str_eqb_refl.
+    rewrite (via_others true tag _ _ h3 h4 k_ua Hv) by discriminate.
+    rewrite (framing_others _ h3 k_ua Hf) by discriminate.
+    rewrite forwarded_others by reflexivity. cbn [q_hdr set_hdr].
+    rewrite (hbh_is_after_removal Hhop). reflexivity.
+  Qed.
+
+  (* T01_forwarded_filled_only_when_absent *)
+  Lemma forwarded_filled tag r r' : modify_request tag r = Passed r' ->
+    str_eqb (q_method r) m_connect = false ->
+    let h0 := after_removal (q_hdr r) in
+    raw_get k_xfp (q_hdr r') = (if is_empty (concat (raw_values k_xfp h0)) then Some [q_scheme r] else raw_get k_xfp h0) /\
+    raw_get k_xfh (q_hdr r') = (if is_empty (concat (raw_values k_xfh h0)) then Some [q_host r] else raw_get k_xfh h0) /\
+    raw_get k_xfu (q_hdr r') = (if is_empty (concat (raw_values k_xfu h0)) then Some [q_urlstr r] else raw_get k_xfu h0).
+  Proof.
+    rewrite modify_request_is_pipeline. intros H Hm. cbn zeta.
+    destruct (pipeline_passed tag r r' H) as [h3 [h4 [Hf [Hv ->]]]]. cbn [q_hdr set_hdr].
+    destruct (forwarded_fill true true (set_hdr r (remove_hop_by_hop (q_hdr r))) Hm) as [A [B C]].
+    cbn [q_hdr q_scheme q_host q_urlstr set_hdr] in A, B, C.
+    destruct canon_consts as [C1 [C2 [C3 _]]].
+    assert (FS : forall k c, canon k = k -> fill_spec true k c (remove_hop_by_hop (q_hdr r)) =
+                 if is_empty (concat (raw_values k (after_removal (q_hdr r)))) then Some [c]
+                 else raw_get k (after_removal (q_hdr r))).
+    { intros k c Ck. unfold fill_spec, fill_absent. rewrite h_values_raw by exact Ck. unfold raw_values.
+      rewrite (hbh_is_after_removal Hhop). reflexivity. }
+    repeat split.
+    - rewrite ua_spec. change (str_eqb k_xfp k_ua) with false. cbv iota.
+      rewrite (via_others true tag _ _ h3 h4 k_xfp Hv) by discriminate.
+      rewrite (framing_others _ h3 k_xfp Hf) by discriminate. rewrite A. apply FS. exact C1.
+    - rewrite ua_spec. change (str_eqb k_xfh k_ua) with false. cbv iota.
+      rewrite (via_others true tag _ _ h3 h4 k_xfh Hv) by discriminate.
+      rewrite (framing_others _ h3 k_xfh Hf) by discriminate. rewrite B. apply FS. exact C2.
+    - rewrite ua_spec. change (str_eqb k_xfu k_ua) with false. cbv iota.
+      rewrite (via_others true tag _ _ h3 h4 k_xfu Hv) by discriminate.
+      rewrite (framing_others _ h3 k_xfu Hf) by discriminate. rewrite C. apply FS. exact C3.
+  Qed.
+End Fixed.
+
+(* ---------- Via and X-Forwarded-For are appended ---------- *)
+Lemma token_single s : tag_ok s = true -> items_ne s = [s].
+Proof.
+  intro Ht. destruct (tag_ok_facts s Ht) as [Hne [H44 [_ Hows]]].
+  unfold items_ne, items. rewrite split_byte_none by exact H44. cbn [map].
+  assert (E : trim_ows s = s).
+  { unfold trim_ows. destruct s as [|c s]; [contradiction|].
+    rewrite (drop_ows_hd (c :: s)) by (apply Hows; left; reflexivity).
+    rewrite drop_ows_hd; [apply rev_involutive|].
+    destruct (rev (c :: s)) as [|k rt] eqn:E.
+    - exfalso. apply (f_equal (@length N)) in E. rewrite rev_length in E. discriminate.
+    - apply Hows. apply in_rev. rewrite E. left. reflexivity. }
+  rewrite E. destruct s; [contradiction|]. reflexivity.
+Qed.
+
+Lemma chain_single x : chain [x] = items_ne x.
+Proof. unfold chain. cbn [flat_map]. apply app_nil_r. Qed.
+
+Lemma chain_joined_plus lines e : tag_ok e = true ->
+  chain [if is_empty (join comma_sp lines) then e else join comma_sp lines ++ comma_sp ++ e] = chain lines ++ [e].
+Proof.
+  intro He. rewrite chain_single. rewrite <- (items_ne_join lines).
+  destruct (join comma_sp lines) as [|c j] eqn:E.
+  - cbn [is_empty]. rewrite items_ne_nil. cbn [app]. apply token_single. exact He.
+  - cbn [is_empty]. unfold comma_sp at 1. cbn [app].
+    change (c :: j ++ 44 :: 32 :: e) with ((c :: j) ++ 44 :: (32 :: e)).
+    rewrite items_ne_sep, items_ne_sp, (token_single e He). reflexivity.
+Qed.
+
+Section Fixed2.
+  Hypothesis Hhop : hop_by_hop_headers = spec_hop_list.
+  Hypothesis Hflat : flat_stack = fixed_flat_stack.
+  Hypothesis Hxff : xff_reads_all_lines = true.
+  Hypothesis Hfill : xfwd_fill_reads_all_lines = true.
+  Hypothesis Hvia : via_reads_all_lines = true.
+  Hypothesis Hst : via_loop_status = 400.
+  Hypothesis Hcl : via_sets_close = true.
+  Hypothesis Hsep : via_join_sep = comma_sp.
+  Hypothesis Hproto : proto_table_ok = true.
+
+  Lemma values_through tag r h3 h4 k :
+    bad_framing (q_hdr (forwarded_gen2 true true (set_hdr r (remove_hop_by_hop (q_hdr r))))) = Some h3 ->
+    via_modify_gen true tag (q_maj r) (q_min r) h3 = ViaOk h4 ->
+    mem k fwd_keys = false -> k <> k_cl ->
+    raw_get k h3 = raw_get k (after_removal (q_hdr r)).
+  Proof.
+    intros Hf Hv Hk Hc. rewrite (framing_others _ h3 k Hf) by exact Hc.
+    rewrite forwarded_others by exact Hk. cbn [q_hdr set_hdr]. apply (hbh_is_after_removal Hhop).
+  Qed.
+
+  Lemma via_xff_appended tag r r' :
+    tag_ok tag = true -> q_maj r < 10 -> q_min r < 10 -> modify_request tag r = Passed r' ->
+    let h0 := after_removal (q_hdr r) in
+    chain (raw_values via_key (q_hdr r')) = chain (raw_values via_key h0) ++ [elem tag (q_maj r) (q_min r)] /\
+    own_elem tag (raw_values via_key h0) = false /\
+    (str_eqb (q_method r) m_connect = false -> tag_ok (client_ip r) = true ->
+       chain (raw_values k_xff (q_hdr r')) = chain (raw_values k_xff h0) ++ [client_ip r]).
+  Proof.
+    intros Ht Hm Hn H. rewrite (modify_request_is_pipeline Hflat Hxff Hfill Hvia) in H. cbn zeta.
+    destruct (pipeline_passed tag r r' H) as [h3 [h4 [Hf [Hv ->]]]]. cbn [q_hdr set_hdr].
+    destruct (proto_table (q_maj r) (q_min r) Hproto Hm Hn) as [Hpe Hp]. rewrite <- Hpe in Hp.
+    destruct (appends_after_existing 400 true Hst Hcl Hsep tag (q_maj r) (q_min r) h3 h4 Ht Hp Hv)
+      as [v [Hv1 [Hch [_ Hown]]]].
+    assert (V3 : h_values via_key h3 = raw_values via_key (after_removal (q_hdr r))).
+    { rewrite h_values_raw by reflexivity. unfold raw_values.
+      rewrite (values_through tag r h3 h4 via_key Hf Hv) by (try reflexivity; discriminate). reflexivity. }
+    assert (VO : forall k, k <> k_ua -> raw_values k (set_empty_user_agent h4) = raw_values k h4).
+    { intros k Hk. unfold raw_values. rewrite ua_spec. apply str_eqb_neq in Hk. rewrite Hk. reflexivity. }
+    split; [|split].
+    - rewrite VO by discriminate. rewrite <- (h_values_raw via_key h4) by reflexivity.
+      rewrite Hv1, Hch, V3. unfold elem. rewrite Hpe. reflexivity.
+    - rewrite <- V3. exact Hown.
+    - intros Hmc Hip. rewrite VO by discriminate.
+      assert (X4 : raw_get k_xff h4 = raw_get k_xff (q_hdr (forwarded_gen2 true true (set_hdr r (remove_hop_by_hop (q_hdr r)))))).
+      { rewrite (via_others true tag _ _ h3 h4 k_xff Hv) by discriminate.
+        apply (framing_others _ h3 k_xff Hf). discriminate. }
+      pose proof (forwarded_xff true (set_hdr r (remove_hop_by_hop (q_hdr r))) Hmc) as X. cbn zeta in X.
+      cbn [q_hdr q_remote set_hdr] in X. rewrite <- X4 in X.
+      unfold raw_values at 1. rewrite X. unfold client_ip.
+      assert (RV : raw_values k_xff (remove_hop_by_hop (q_hdr r)) = raw_values k_xff (after_removal (q_hdr r))).
+      { unfold raw_values. rewrite (hbh_is_after_removal Hhop). reflexivity. }
+      rewrite RV. apply chain_joined_plus. exact Hip.
+  Qed.
+End Fixed2.
+
+(* ---------- proxyConn.handle: scheme fix-up, upgrade detection, stack, re-add ---------- *)
+Definition fixed_handle_order : list str :=
+  [b "fixRequestScheme"; b "upgradeType"; b "modifyRequest"; b "readdUpgrade"; b "roundTrip"].
+
+Lemma fix_scheme_hdr a r : q_hdr (fix_request_scheme a r) = q_hdr r.
+Proof.
+  unfold fix_request_scheme.
+  repeat match goal with |- context [if ?c then _ else _] => destruct c end; reflexivity.
+Qed.
+
+Definition handle_explicit (tag : str) (r : mreq) : outcome :=
+  let up := upgrade_type (q_hdr r) in
+  match modify_request tag (fix_request_scheme proxy_allow_http r) with
+  | Refused s => Refused s
+  | Passed r' => Passed (if is_empty up then r'
+                         else set_hdr r' (h_set k_upgrade up (h_set k_connection k_upgrade (q_hdr r'))))
+  end.
+
+Lemma hs_fix tag r up : handle_step tag (b "fixRequestScheme") (r, up) = (Passed (fix_request_scheme proxy_allow_http r), up).
+Proof. reflexivity. Qed.
+Lemma hs_up tag r up : handle_step tag (b "upgradeType") (r, up) = (Passed r, upgrade_type (q_hdr r)).
+Proof. reflexivity. Qed.
+Lemma hs_mod tag r up : handle_step tag (b "modifyRequest") (r, up) = (modify_request tag r, up).
+Proof. reflexivity. Qed.
+Lemma hs_readd tag r up : handle_step tag (b "readdUpgrade") (r, up) =
+  (Passed (if is_empty up then r else set_hdr r (h_set k_upgrade up (h_set k_connection k_upgrade (q_hdr r)))), up).
+Proof. reflexivity. Qed.
+Lemma hs_rt tag r up : handle_step tag (b "roundTrip") (r, up) = (Passed r, up).
+Proof. reflexivity. Qed.
+
+Lemma handle_request_explicit tag r : handle_order = fixed_handle_order -> handle_request tag r = handle_explicit tag r.
+Proof.
+  intro Ho. unfold handle_request, handle_explicit. rewrite Ho. unfold fixed_handle_order.
+  cbn [run_handle]. rewrite hs_fix. cbv beta iota. rewrite hs_up. cbv beta iota. rewrite fix_scheme_hdr.
+  rewrite hs_mod. destruct (modify_request tag (fix_request_scheme proxy_allow_http r)) as [s|r']; [reflexivity|].
+  cbv beta iota. rewrite hs_readd. cbv beta iota. rewrite hs_rt. cbv beta iota. reflexivity.
+Qed.
+
+(* T01 body framing at the modelled Transport layer: the framing kind the next hop sees is the client's
+   (an empty Content-Length body counts as no body) *)
+Lemma body_framing x t r o : transport_out x t r = Some o -> xi_framing x <= 2 ->
+  xo_framing o = norm_framing (xi_framing x) (xi_blen x).
+Proof.
+  unfold transport_out. destruct (escaped_path (t_path t)); [|discriminate]. intros H Hle. injection H as <-.
+  cbn [xo_framing]. unfold norm_framing.
+  destruct (xi_framing x =? 2) eqn:E2.
+  - apply N.eqb_eq in E2. rewrite E2. reflexivity.
+  - destruct (xi_framing x =? 1) eqn:E1.
+    + apply N.eqb_eq in E1. rewrite E1. cbn [andb]. destruct (xi_blen x =? 0); reflexivity.
+    + cbn [andb]. apply N.eqb_neq in E1, E2. lia.
+Qed.
+
+(* the k-th request on a connection is treated like the first: the pipeline is a function of the request alone *)
+Lemma keepalive_stateless tag (before after : list mreq) r :
+  nth_error (map (handle_request tag) (before ++ r :: after)) (length before) = Some (handle_request tag r).
+Proof.
+  rewrite map_app. rewrite nth_error_app2; rewrite map_length; [|apply le_n].
+  rewrite Nat.sub_diag. reflexivity.
+Qed.
+
+Lemma is_removed_listed k h : mem k spec_hop_list = true -> is_removed k h = true.
+Proof. intro H. unfold is_removed, removed_names, mem. rewrite existsb_app. fold (mem k spec_hop_list). rewrite H. apply orb_true_r. Qed.
+
+Section Fixed3.
+  Hypothesis Hhop : hop_by_hop_headers = spec_hop_list.
+  Hypothesis Hflat : flat_stack = fixed_flat_stack.
+  Hypothesis Hxff : xff_reads_all_lines = true.
+  Hypothesis Hfill : xfwd_fill_reads_all_lines = true.
+  Hypothesis Hvia : via_reads_all_lines = true.
+  Hypothesis Horder : handle_order = fixed_handle_order.
+
+  (* T01_hop_by_hop_removed, Upgrade clause: Connection / Upgrade reach the next hop only when an upgrade
+     was requested, and then exactly as "Connection: Upgrade" + "Upgrade: <type>"; every other name is as the
+     modifier stack left it *)
+  Lemma upgrade_readded tag r r' : handle_request tag r = Passed r' ->
+    exists r1, modify_request tag (fix_request_scheme proxy_allow_http r) = Passed r1 /\
+    let up := upgrade_type (q_hdr r) in
+    (is_empty up = false -> raw_get k_connection (q_hdr r') = Some [k_upgrade] /\ raw_get k_upgrade (q_hdr r') = Some [up]) /\
+    (is_empty up = true -> raw_get k_connection (q_hdr r') = None /\ raw_get k_upgrade (q_hdr r') = None) /\
+    (forall k, k <> k_connection -> k <> k_upgrade -> raw_get k (q_hdr r') = raw_get k (q_hdr r1)).
+  Proof.
+    rewrite (handle_request_explicit tag r Horder). unfold handle_explicit. cbn zeta.
+    destruct (modify_request tag (fix_request_scheme proxy_allow_http r)) as [s|r1] eqn:E; [discriminate|].
+    intro H. injection H as <-. exists r1. split; [reflexivity|].
+    destruct (is_empty (upgrade_type (q_hdr r))) eqn:Eu.
+    - split; [discriminate|]. split; [|reflexivity]. intros _.
+      split.
+      * apply (hop_by_hop_removed Hhop Hflat Hxff Hfill Hvia tag _ r1 k_connection E); [|reflexivity].
+        apply is_removed_listed. reflexivity.
+      * apply (hop_by_hop_removed Hhop Hflat Hxff Hfill Hvia tag _ r1 k_upgrade E); [|reflexivity].
+        apply is_removed_listed. reflexivity.
+    - split; [|split; [discriminate|]].
+      + intros _. cbn [q_hdr set_hdr]. split.
+        * rewrite raw_get_h_set_other by (try reflexivity; discriminate). apply raw_get_h_set_same. reflexivity.
+        * apply raw_get_h_set_same. reflexivity.
+      + intros k H1 H2. cbn [q_hdr set_hdr].
+        rewrite raw_get_h_set_other by (try reflexivity; assumption).
+        apply raw_get_h_set_other; [reflexivity | assumption].
+  Qed.
+End Fixed3.
